@@ -207,9 +207,10 @@ def plan_faults(rng, units, gathered):
 UNIT_LINE_CAP = 25_000_000
 
 
-def execute(case, wd, tag, threads, sched, skip_failed, faults=None, skip_units=None, count_units=False):
+def execute(case, wd, tag, threads, sched, skip_failed, faults=None, skip_units=None, count_units=False,
+            cfg_over=None):
     ref, files, out = cvcase.materialise(case, cvcase.reference_layout(case), wd, tag)
-    cfg = dict(case['config'], threads=threads, skip_failed=skip_failed)
+    cfg = dict(case['config'], threads=threads, skip_failed=skip_failed, **(cfg_over or {}))
     return cvrun.run_callvariant(ref, files, out, cfg, sched, faults=faults, skip_units=skip_units,
                                  count_units=count_units, line_cap=UNIT_LINE_CAP if count_units else None)
 
@@ -309,7 +310,14 @@ def judge(case, f0, a, b, a2, faults):
 
 
 def judge_timeout_once(case, wd, f0, tfaults, threads, sched, out=None):
-    t = execute(case, wd, 't', threads, sched, False, faults=tfaults)
+    # same first ladder step as the fault-free run, then a drastic second step: the retry of the timed-out transcript
+    # runs with max_variants_per_node=1, and a leak of the lowered limits into other transcripts costs them every
+    # multi-variant peptide
+    base = cvrun.DEFAULT_CONFIG if hasattr(cvrun, 'DEFAULT_CONFIG') else {}
+    mv = list(case['config'].get('max_variants_per_node', base.get('max_variants_per_node', [7])))[:1] + [1]
+    av = list(case['config'].get('additional_variants_per_misc', base.get('additional_variants_per_misc', [2])))[:1] + [0]
+    t = execute(case, wd, 't', threads, sched, False, faults=tfaults,
+                cfg_over={'max_variants_per_node': mv, 'additional_variants_per_misc': av})
     if out is not None:
         out['executions'] += 1
     if not t.fault_fired or t.wall_capped:
@@ -335,9 +343,8 @@ def judge_timeout_once(case, wd, f0, tfaults, threads, sched, out=None):
         res.append(('sandwich', 'sandwich:lost-other-unit:timeout-retry',
                     {'lost': lost[:5], 'n': len(lost), 'entries': {s: f0.fasta[s] for s in lost[:3]},
                      'timed_out_once': sorted(tfaults)}))
-    if not st <= s0:
-        res.append(('sandwich', 'sandwich:invented:timeout-retry',
-                    {'invented': sorted(st - s0)[:5], 'n': len(st - s0), 'timed_out_once': sorted(tfaults)}))
+    # (no 'invented' clause here: under the lowered limits the timed-out transcript may legitimately yield peptides
+    # the full limits do not -- DESIGN 4-C02)
     return res
 
 
